@@ -232,7 +232,7 @@ def replay(ctx, rec):
     if i.get("level") == "kernel":
         kernel_level(ctx, [(tuple(map(list, i["A"])), tuple(map(list, i["B"])))])
     else:
-        print("api-level case: re-run the check with the recorded seed"); return False
+        return None      # main re-executes the recorded run
     for f in ctx.failures[n0:]:
         print(f["kind"], f["what"], "impl=", f["impl"], "model=", f["model"])
     return len(ctx.failures) == n0
